@@ -195,3 +195,34 @@ theorem encodeStd_visible (bs : Bytes) : ∀ c ∈ encodeStd bs, 0x21 ≤ c ∧ 
   · rw [h.2]; decide
 
 end B64
+
+namespace B64
+/-- the two alphabets agree below 62 -/
+theorem enc6_alphabet_irrelevant (n : Nat) (h : n < 62) : enc6 .standard n = enc6 .urlSafe n := by
+  unfold enc6
+  have h1 : ¬ (n = 62) := by omega
+  simp only [h1, ↓reduceIte]
+  repeat' split
+  all_goals first | rfl | omega
+
+/-- on ASCII input that avoids '>' '?' '~' DEL (in particular on every form-urlencoded payload, with or
+without ':'), no 6-bit group is 62 or 63, so `BASE64_STANDARD` and `BASE64_URL_SAFE` produce the same text:
+swapping the engine used for the Basic credential is a harmless rewrite -/
+theorem encodeN_alphabet_irrelevant (l : List Nat) (h : ∀ b ∈ l, b < 128 ∧ b % 64 < 62) :
+    encodeN .standard l = encodeN .urlSafe l := by
+  fun_induction encodeN .standard l
+  · rename_i a b c rest ih
+    have ha := h a (by simp); have hb := h b (by simp); have hc := h c (by simp)
+    simp only [encodeN]
+    rw [enc6_alphabet_irrelevant _ (by omega), enc6_alphabet_irrelevant _ (by omega), enc6_alphabet_irrelevant _ (by omega),
+        enc6_alphabet_irrelevant _ (by omega), ih (fun x hx => h x (by simp [hx]))]
+  · rename_i a b
+    have ha := h a (by simp); have hb := h b (by simp)
+    simp only [encodeN]
+    rw [enc6_alphabet_irrelevant _ (by omega), enc6_alphabet_irrelevant _ (by omega), enc6_alphabet_irrelevant _ (by omega)]
+  · rename_i a
+    have ha := h a (by simp)
+    simp only [encodeN]
+    rw [enc6_alphabet_irrelevant _ (by omega), enc6_alphabet_irrelevant _ (by omega)]
+  · rfl
+end B64
